@@ -57,6 +57,43 @@ def _tests_perm(f, bit):
 PRELOAD_C = ['miasm/jitter/vm_mngr_py.c', 'miasm/jitter/vm_mngr.c', 'miasm/jitter/Jitgcc.c', 'miasm/jitter/Jitllvm.c']
 
 
+def _access_record_rules(ck):
+    """R9: the Python back end records a guest access exactly as the C primitives do: the byte range that was read.
+    (a) unit: every length handed to a VmMngr range primitive is a byte count (an Expr width must have been divided by 8)
+    (b) pairing: the range recorded with add_mem_read is the range fetched with get_mem in the same hook
+    (c) the C primitives MEM_LOOKUP_nn / MEM_WRITE_nn record nn/8 bytes (checked under C22-R2; re-stated here as the sibling)"""
+    import ast as _ast
+    from sa.astutil import walk_body as _wb, dotted as _d, norm as _n, Resolver as _R
+    from sa.units import unit as _unit
+    ck.rule("R9", "guest accesses are recorded in bytes, over the range actually accessed, on the Python back end as in C", floor=3)
+    SINKS = {"get_mem": 1, "add_mem_read": 1, "add_mem_write": 1, "is_mapped": 1, "add_memory_breakpoint": 1}
+    files = ["miasm/jitter/emulatedsymbexec.py", "miasm/jitter/jitcore_python.py", "miasm/jitter/jitload.py", "miasm/jitter/jitcore.py"]
+    for rel in files:
+        m = ck.repo.mod(rel)
+        for q, fn in sorted(m.funcs.items()):
+            res = None
+            calls = [c for c in _wb(fn) if isinstance(c, _ast.Call) and isinstance(c.func, _ast.Attribute) and c.func.attr in SINKS
+                     and (_d(c.func.value) or "").split(".")[-1] == "vm" and len(c.args) > SINKS[c.func.attr]]
+            for c in calls:
+                if res is None:
+                    res = _R(fn)
+                a = c.args[SINKS[c.func.attr]]
+                u = _unit(a, res)
+                ck.ob("R9", "%s:%s(%s):bytes" % (q, c.func.attr, _n(a)[:30]), u != "bit", m.where(c),
+                      "`%s` passes `%s`, a width in bits, where the memory manager expects a byte count: the recorded / fetched range is "
+                      "8 times too long (a read breakpoint next to the accessed bytes fires on this back end only)" % (_n(c)[:60], _n(res.expand_node(a))[:40]))
+            recs = [c for c in calls if c.func.attr == "add_mem_read"]
+            gets = [c for c in calls if c.func.attr == "get_mem"]
+            for rc in recs:
+                same = any(_n(res.expand_node(g.args[0])) == _n(res.expand_node(rc.args[0])) and _n(res.expand_node(g.args[1])) == _n(res.expand_node(rc.args[1])) for g in gets)
+                ck.ob("R9", "%s:add_mem_read-matches-get_mem" % q, bool(gets) and same, m.where(rc),
+                      "the read recorded by `%s` is not the range fetched by %s" % (_n(rc)[:60], [_n(g)[:50] for g in gets]))
+    m = ck.repo.mod("miasm/jitter/emulatedsymbexec.py")
+    mr = m.func("EmulatedSymbExec.mem_read")
+    ok = any(isinstance(c, _ast.Call) and _d(c.func) == "self.vm.add_mem_read" for c in _wb(mr))
+    ck.ob("R9", "EmulatedSymbExec.mem_read:records-the-read", ok, m.where(mr), "a concrete read on the Python back end is not recorded for memory breakpoints")
+
+
 def run(ck):
     ck.rule("R1", "shared constant names have equal values in csts.py and vm_mngr.h", floor=12)
     ck.rule("R2", "same phase order in the three back ends", floor=3)
@@ -68,6 +105,7 @@ def run(ck):
     from rules.c23 import stop_set_rules
     stop_set_rules(ck, "R8")
     ck.rule("R7", "contradiction lints: a key tested in one table indexes that table; binary calls use distinct operands", floor=2)
+    _access_record_rules(ck)
 
     # ---------------------------------------------------------------- R1
     pc = py_constants(ck.repo)
